@@ -59,6 +59,9 @@ func (ts *TemplateOp) Do(ctx ActionContext) error {
 	}
 	ss := ctx.Snapshot()
 	val, err := ctx.TemplateEngine().Render(ts.Template, ss)
+	if err != nil {
+		return err
+	}
 	if safeBoolDeref(ts.Trim) {
 		val = strings.TrimSpace(val)
 	}
